@@ -19,11 +19,12 @@ TEXT.update({
     "C17": dict(level="Bounded symbolic verification per listed year: Taoist/Buddhist year offsets, round trips through NewTao/NewFoto, and every day-class predicate equals its table/stem definition for every moment of the year." + _py, note=_note),
 })
 TEXT["C15"] = dict(level="Bounded symbolic verification over ALL civil dates 1..9998 (year symbolic, cubed on calendar era and month) and all 7 week starts: first day/weekday/containment, seven consecutive days, index in month and year, weeks of a month (count and list), days in month, whole-week stepping = 7n days with inverse, month-separated stepping one position per step (+1/-1/0), month day lists, month/season/half-year/year navigation.", note=_note)
+TEXT["C12"] = dict(level="Bounded symbolic verification. Start offsets and direction: for every birth second of each listed year, both genders and both schools, the offset equals the stated conversion of the distance to the next/previous Jie (computed from the year's real term table by tuple arithmetic) and lies in range. Chain: field-level harness over arbitrary month/hour pillars, direction and start offset: great-fortune spans contiguous and aligned with the birth year, pillars step from the month pillar, every annual fortune carries (year-4) mod 60, monthly fortunes follow five tigers, minor fortunes step from the hour pillar by age.", note=_note + " The chain harness builds the Yun object directly (fields symbolic within the ranges the start-offset harness proves); a counterexample there is a field valuation replayed natively on the same struct.")
 TEXT["C05"]["level"] += " Year and month pillars (three year conventions, two month conventions) are decided per listed year against a spec computed from the year's real term table by tuple comparison." + _py
 TEXT["C07"]["level"] += " NewLunar/NewTao/NewFoto accept exactly the (month, day, time) tuples of the listed lunar years' own tables (month cubed -13..13, day and time symbolic)."
 
 NOT_APPLICABLE = {
     "C02": "Every clause is about the numerical output of the ephemeris (sin/cos series, Newton steps, delta-T tables) evaluated at a concrete year against an external oracle (independent ephemeris / ICU, not present); no SMT theory covers the transcendental code and nothing symbolic is left once the year is concrete - deciding it would be enumeration of concrete runs, not solver-based checking (DESIGN.md §5).",
 }
-for p in ["C08","C09","C10","C11","C12","C14","C16","C18"]:
+for p in ["C08","C09","C10","C11","C14","C16","C18"]:
     NOT_APPLICABLE.setdefault(p, "check not built yet in this revision (work in progress; see DESIGN.md §9 build order)")
